@@ -2,10 +2,31 @@
 
 namespace photospline{
 
+bool integerFitsKeyword(fitsfile* fits, const char* key){
+	char value[FLEN_VALUE];
+	int status = 0;
+	fits_read_keyword(fits, key, value, NULL, &status);
+	if (status != 0)
+		return (false);
+	const char* p = value;
+	while (*p == ' ')
+		p++;
+	if (*p == '+' || *p == '-')
+		p++;
+	size_t digits = 0;
+	for ( ; *p >= '0' && *p <= '9'; p++)
+		digits++;
+	while (*p == ' ')
+		p++;
+	return (*p == '\0' && digits > 0 && digits <= 18);
+}
+	
 std::vector<uint32_t> readOrder(fitsfile* fits, uint32_t ndim){
 	int error = 0;
 	std::vector<uint32_t> order(ndim);
 	//See if there is a single order value
+	if (!integerFitsKeyword(fits, "ORDER"))
+		error = KEY_NO_EXIST;
 	fits_read_key(fits, TINT, "ORDER", &order[0], NULL, &error);
 	if (error != 0) {
 		error = 0;
@@ -14,6 +35,8 @@ std::vector<uint32_t> readOrder(fitsfile* fits, uint32_t ndim){
 		for (uint32_t i = 0; i < ndim; i++) {
 			std::ostringstream ss;
 			ss << "ORDER" << i;
+			if (!integerFitsKeyword(fits, ss.str().c_str()))
+				error = BAD_INTKEY;
 			fits_read_key(fits, TUINT, ss.str().c_str(), &order[i], NULL, &error);
 			if (error != 0) {
 				throw std::runtime_error("Needs real error message 6");
